@@ -117,7 +117,7 @@ def main():
         "setup_cmd": "./check build",
         "hooks": {
             "guard": "ACQUIRE_COMMON_VERIF",
-            "enable": "no source hooks are needed: the checks compile /repo's working tree unmodified and interpose below platform.c at link time (objcopy --redefine-syms, see sim/seams/*.txt); the guard name is reserved and unused",
+            "enable": "no source hooks are needed: the checks compile /repo's working tree unmodified and interpose below platform.c at link time (objcopy --redefine-syms, see sim/seams/*.txt); the fine flavour additionally compiles the repo's C files with -fsanitize=thread against a private __tsan runtime (sim/tsanrt.cpp); the guard name is reserved and unused",
             "baseline_off_cmd": "cmake --build /repo/_build && ctest --test-dir /repo/_build -j8 --timeout 900",
             "source_commits": [],
             "add_only": True,
@@ -126,7 +126,7 @@ def main():
             "name": "vsim",
             "path": "/verif/build/asan/vsim",
             "serves_properties": [c["property_id"] for c in checks],
-            "kind_free_text": "deterministic simulator: real pthreads parked on futexes with exactly one runnable at a time, seeded scheduler (random walk / sticky / PCT), virtual clock, in-memory file layer, fault injection, fork-per-run workers under ASan+UBSan, ddmin shrinking of plans and schedules, replay gate",
+            "kind_free_text": "deterministic simulator (two flavours: build/asan/vsim and build/fine/vsim): real pthreads parked on futexes with exactly one runnable at a time, seeded scheduler (random walk / sticky / PCT), virtual clock, in-memory file layer, fault injection, fork-per-run workers under ASan+UBSan, ddmin shrinking of plans and schedules, replay gate",
         }],
         "checks": checks,
         "not_applicable": na,
